@@ -14,6 +14,7 @@ import (
 	"runtime"
 	"sort"
 	"strconv"
+	"strings"
 	"sync"
 	"sync/atomic"
 	"testing/synctest"
@@ -457,11 +458,13 @@ func (s *Sim) hookPointL(t *Task, point string, window, atLock bool) bool {
 
 //go:norace
 func (s *Sim) Step(ctx context.Context, ast, env interface{}) {
+	// an aborted run unwinds every goroutine that still evaluates, token or not (deferred lisp code such
+	// as a finally body would otherwise go on running with nobody scheduling it)
+	s.checkPoison()
 	t := s.cur
 	if t == nil {
 		return
 	}
-	s.checkPoison()
 	t.Steps++
 	s.TotalSteps++
 	if s.OnStep != nil {
@@ -485,11 +488,11 @@ func (s *Sim) Step(ctx context.Context, ast, env interface{}) {
 
 //go:norace
 func (s *Sim) Yield(point string, obj interface{}) {
+	s.checkPoison()
 	t := s.cur
 	if t == nil {
 		return
 	}
-	s.checkPoison()
 	switch point {
 	case "auto.locked":
 		t.lockDepth++
@@ -518,11 +521,18 @@ func probe(ready func() bool) bool {
 
 //go:norace
 func (s *Sim) Await(point string, obj interface{}, ready func() bool) {
+	s.checkPoison()
 	t := s.cur
 	if t == nil {
 		return
 	}
-	s.checkPoison()
+	// sync.RWMutex: once a writer waits, new readers wait behind it (which is what makes recursive read
+	// locking a deadlock). A waiting writer lives in the simulator, not in the mutex, so this is emulated:
+	// a read-lock acquisition is not ready while some task waits for the write lock of the same mutex.
+	if obj != nil && isReadLockPoint(point) {
+		w := &rlockWait{s: s, obj: obj, ready: ready, self: t}
+		ready = w.check
+	}
 	if probe(ready) {
 		if !s.hookPointL(t, point, true, true) {
 			return
@@ -542,6 +552,31 @@ func (s *Sim) Await(point string, obj interface{}, ready func() bool) {
 	s.park(t)
 	t.ready = nil
 	t.obj = nil
+}
+
+type rlockWait struct {
+	s     *Sim
+	obj   interface{}
+	ready func() bool
+	self  *Task
+}
+
+//go:norace
+func (w *rlockWait) check() bool {
+	for _, t := range w.s.tasks {
+		if t != w.self && t.state == tsWaiting && t.obj == w.obj && isWriteLockPoint(t.point) {
+			return false
+		}
+	}
+	return w.ready()
+}
+
+func isReadLockPoint(p string) bool {
+	return strings.Contains(p, "rlock")
+}
+
+func isWriteLockPoint(p string) bool {
+	return strings.Contains(p, "lock") && !strings.Contains(p, "rlock")
 }
 
 // WaitUntil parks the token holder until pred (evaluated by the scheduler while nobody runs) holds.
